@@ -259,9 +259,9 @@ func c08Exec(t *testing.T, sc *gen.Scenario, trace bool) *harness.Outcome {
 					continue
 				}
 				if a.s != want.s {
-					tag := ""
+					tag := e.engineTags(stateFor(sc, rq2), rq2)
 					if rq2.Kind == "check" && ReachesMutualRecursion(sc.Model, rm.ObjType(rq2.Obj), rq2.Rel) {
-						tag = " reaches_mutually_recursive_relations"
+						tag += " reaches_mutually_recursive_relations"
 					}
 					e.Violate("cache_changes_answer", fmt.Sprintf("mode=%d kind=%s subj=%s%s", mode, rq2.Kind, subjKind(rq2.User), tag), "request %d copy %d (%+v): %s with the query cache on, %s with caching disabled (cache stats %v)", i, k, rq2, a.s, want.s, cache.Stats())
 					return
@@ -418,7 +418,7 @@ func c09Exec(t *testing.T, sc *gen.Scenario, trace bool) *harness.Outcome {
 				continue
 			}
 			if a.s != want.s {
-				e.Violate("cache_changes_answer", fmt.Sprintf("mode=%d kind=%s", mode, rq2.Kind), "request %d (%+v): %s with the iterator caches on, %s with caching disabled (cache stats %v)", i, rq2, a.s, want.s, cache.Stats())
+				e.Violate("cache_changes_answer", fmt.Sprintf("mode=%d kind=%s%s", mode, rq2.Kind, e.engineTags(stateFor(sc, rq2), rq2)), "request %d (%+v): %s with the iterator caches on, %s with caching disabled (cache stats %v)", i, rq2, a.s, want.s, cache.Stats())
 				return
 			}
 			if ttl < time.Second && i%4 == 1 {
